@@ -484,7 +484,7 @@ def plan(tier, seed, scale=1.0):
         for w in range(16):
             tasks.append({"part": "enum", "alphabet": "core", "length": 5, "stride": 16, "offset": w, "seed": seed})
         for w in range(32):
-            tasks.append({"part": "seeded", "n": int(6000 * scale), "seed": seed * 1000 + w})
+            tasks.append({"part": "seeded", "n": int(1600 * scale), "seed": seed * 1000 + w})
     return tasks
 
 
